@@ -1,6 +1,155 @@
-(* C14 proofs. *)
-From CJ Require Import Common.Base C14.Model.
-From Coq Require Import Lia ZifyN ZifyNat ZifyBool.
+(* C14 proofs: containment, well-formedness, flag, no panic, unknown generation.
+   Everything is proved for an arbitrary PRF hm, math/rand source and sorter. *)
+From CJ Require Import Common.Base C14.Model C14.LibProofs.
+From Coq Require Import Lia ZifyN ZifyNat ZifyBool Permutation.
+
+(* what a selected phantom must satisfy w.r.t. the network it was taken from *)
+Definition good (p : pnet) (ph : phantom) : Prop :=
+  contains (fst p) (eff_fam (fst p)) (be_to_N (p_bytes ph)) /\
+  blen (p_bytes ph) * 8 = bits (eff_fam (fst p)) /\
+  p_rand_port ph = snd p.
+
+Definition from_cfg (cfg : config) (p : pnet) : Prop :=
+  exists g, In g cfg /\ In (fst p) (group_cidrs g) /\ snd p = rand_port g.
+
+(* ---------- parsing ---------- *)
+Lemma parse_list_in : forall l rp t, parse_list l rp = Some t ->
+  forall p, In p t -> In (Some (fst p)) l /\ snd p = rp.
+Proof.
+  induction l as [|o l IH]; intros rp t H p Hin.
+  - inversion H; subst. destruct Hin.
+  - cbn [parse_list] in H. destruct o as [c|]; [|discriminate].
+    destruct (parse_list l rp) as [t'|] eqn:E; [|discriminate].
+    inversion H; subst. destruct Hin as [<-|Hin].
+    + split; [left; reflexivity|reflexivity].
+    + destruct (IH _ _ E _ Hin). split; [right; assumption|assumption].
+Qed.
+
+Lemma parse_subnets_from : forall g t, parse_subnets g = Ok t ->
+  forall p, In p t -> In (fst p) (group_cidrs g) /\ snd p = rand_port g.
+Proof.
+  intros g t H p Hin. unfold parse_subnets in H. unfold group_cidrs.
+  destruct (nets g) as [l|]; [|discriminate].
+  destruct l as [|o l]; [discriminate|].
+  destruct (parse_list (o :: l) (rand_port g)) as [t'|] eqn:E; [|discriminate].
+  inversion H; subst. destruct (parse_list_in _ _ _ E _ Hin) as [H1 H2].
+  split; [|assumption]. apply in_flat_map. exists (Some (fst p)). split; [assumption|left; reflexivity].
+Qed.
+
+Lemma parse_subnets_no_panic : forall g, parse_subnets g <> Panic.
+Proof.
+  intros g. unfold parse_subnets. destruct (nets g) as [[|o l]|]; try discriminate.
+  destruct (parse_list (o :: l) (rand_port g)); discriminate.
+Qed.
+
+Lemma filter_family_in : forall f l p, In p (filter_family f l) -> In p l /\ eff_fam (fst p) = f.
+Proof.
+  intros f l p H. unfold filter_family in H. apply filter_In in H. destruct H as [H1 H2].
+  split; [assumption|]. destruct (eff_fam (fst p)), f; (reflexivity || discriminate).
+Qed.
+
+(* ---------- ranges ---------- *)
+Lemma id_nets_in : forall l t mn mx p, In (mn, mx, p) (fst (id_nets l t)) -> In p l.
+Proof.
+  induction l as [|q l IH]; intros t mn mx p H.
+  - destruct H.
+  - cbn [id_nets] in H. destruct (id_nets l (t + sel_count (fst q))) as [rest tot] eqn:E.
+    cbn [fst] in H. destruct H as [H|H].
+    + inversion H; subst. left; reflexivity.
+    + right. eapply IH. rewrite E. exact H.
+Qed.
+
+Lemma id_nets_v0_in : forall l t mn mx p, In (mn, mx, p) (fst (id_nets_v0 l t)) -> In p l.
+Proof.
+  induction l as [|q l IH]; intros t mn mx p H.
+  - destruct H.
+  - cbn [id_nets_v0] in H. destruct (id_nets_v0 l (t + sel_count (fst q) - 1)) as [rest tot] eqn:E.
+    cbn [fst] in H. destruct H as [H|H].
+    + inversion H; subst. left; reflexivity.
+    + right. eapply IH. rewrite E. exact H.
+Qed.
+
+(* ---------- address construction ---------- *)
+Lemma addr_len_bits : forall c, addr_len c * 8 = bits (eff_fam c).
+Proof. intros c. unfold addr_len. destruct (eff_fam c); reflexivity. Qed.
+
+Lemma addr_bytes_ok : forall c a b, addr_bytes c a = Ok b ->
+  be_to_N b = a /\ blen b * 8 = bits (eff_fam c).
+Proof.
+  intros c a b H. unfold addr_bytes in H.
+  destruct (N.size a <=? 8 * addr_len c) eqn:E; [|discriminate].
+  inversion H; subst. split.
+  - apply be_to_N_to_be_size. exact E.
+  - rewrite N_to_be_length. apply addr_len_bits.
+Qed.
+
+Lemma addr_bytes_no_panic : forall c a, addr_bytes c a <> Panic.
+Proof. intros. unfold addr_bytes. destruct (N.size a <=? 8 * addr_len c); discriminate. Qed.
+
+Lemma addr_from_offset_good : forall p off ph, addr_from_offset p off = Ok ph -> good p ph.
+Proof.
+  intros p off ph H. unfold addr_from_offset in H.
+  destruct (net_size (fst p) <=? off) eqn:E; [discriminate|].
+  destruct (addr_bytes (fst p) (eff_base (fst p) + off)) as [b| |] eqn:Eb; try discriminate.
+  inversion H; subst. destruct (addr_bytes_ok _ _ _ Eb) as [H1 H2].
+  unfold good, contains. cbn [p_bytes p_rand_port]. rewrite H1.
+  repeat split; try assumption; lia.
+Qed.
+
+Lemma addr_from_offset_no_panic : forall p off, addr_from_offset p off <> Panic.
+Proof.
+  intros. unfold addr_from_offset. destruct (net_size (fst p) <=? off); [discriminate|].
+  destruct (addr_bytes (fst p) (eff_base (fst p) + off)) eqn:E; try discriminate.
+  exfalso. eapply addr_bytes_no_panic; eauto.
+Qed.
+
+(* ---------- the match loop ---------- *)
+Section Loop.
+  Variable hit : N -> N -> bool.
+  Variable pick : N -> pnet -> sres phantom.
+
+  Lemma match_loop_inv : forall l acc ph, match_loop hit pick l acc = Ok (Some ph) ->
+    acc = Some ph \/ exists mn mx p, In (mn, mx, p) l /\ hit mn mx = true /\ pick mn p = Ok ph.
+  Proof.
+    induction l as [|[[mn mx] p] l IH]; intros acc ph H.
+    - inversion H; subst. left; reflexivity.
+    - cbn [match_loop] in H. destruct (hit mn mx) eqn:Eh.
+      + destruct (pick mn p) as [ph'| |] eqn:Ep; try discriminate.
+        destruct (IH _ _ H) as [Ha|(mn' & mx' & p' & Hin & Hh & Hp)].
+        * inversion Ha; subst. right. exists mn, mx, p. repeat split; auto. left; reflexivity.
+        * right. exists mn', mx', p'. repeat split; auto. right; assumption.
+      + destruct (IH _ _ H) as [Ha|(mn' & mx' & p' & Hin & Hh & Hp)].
+        * left; assumption.
+        * right. exists mn', mx', p'. repeat split; auto. right; assumption.
+  Qed.
+
+  Lemma match_loop_no_panic : (forall mn p, pick mn p <> Panic) ->
+    forall l acc, match_loop hit pick l acc <> Panic.
+  Proof.
+    intros Hp. induction l as [|[[mn mx] p] l IH]; intros acc; cbn [match_loop]; [discriminate|].
+    destruct (hit mn mx); [|apply IH].
+    destruct (pick mn p) eqn:E; [apply IH|discriminate|exfalso; eapply Hp; eauto].
+  Qed.
+End Loop.
+
+Lemma finish_loop_ok : forall r ph, finish_loop r = Ok ph -> r = Ok (Some ph).
+Proof. intros [[x|]|e|] ph H; cbn in H; try discriminate. inversion H; reflexivity. Qed.
+
+Lemma finish_loop_no_panic : forall r, r <> Panic -> finish_loop r <> Panic.
+Proof. intros [[x|]|e|] H; cbn; try discriminate. exfalso; apply H; reflexivity. Qed.
+
+(* ---------- sums of weights ---------- *)
+Definition wsum (l : list group) : N := fold_left (fun a g => a + weight g) l 0.
+
+Lemma wsum_from : forall l a, fold_left (fun a g => a + weight g) l a = a + wsum l.
+Proof.
+  unfold wsum. induction l as [|g l IH]; intros a; cbn [fold_left].
+  - lia.
+  - rewrite (IH (a + weight g)), (IH (0 + weight g)). lia.
+Qed.
+
+Lemma wsum_cons : forall g l, wsum (g :: l) = weight g + wsum l.
+Proof. intros. unfold wsum at 1. cbn [fold_left]. rewrite wsum_from. lia. Qed.
 
 Section Gen.
   Variable hm : bytes -> bytes -> bytes.
@@ -8,11 +157,291 @@ Section Gen.
   Variable src_seed : Z -> src.
   Variable src_int63 : src -> N * src.
   Variable sorter : list group -> list group.
+  Hypothesis sorter_perm : forall l, Permutation (sorter l) l.
 
-  Lemma select_gen_unknown_generation :
-    forall seed lv f, select_gen hm src src_seed src_int63 sorter seed None lv f = Err EGeneration.
+  Notation select_g := (select_gen hm src src_seed src_int63 sorter).
+  Notation select_phantom_g := (select_phantom_gen hm sorter).
+
+  Lemma sorter_incl : forall l g, In g (sorter l) -> In g l.
+  Proof. intros l g H. eapply Permutation_in; [apply sorter_perm|exact H]. Qed.
+
+  Lemma walk_in : forall l rnd g, walk_weights l rnd = Some g -> In g l.
+  Proof.
+    induction l as [|x l IH]; intros rnd g H; [discriminate|].
+    cbn [walk_weights] in H. destruct (rnd - Z.of_N (weight x) <? 0)%Z.
+    - inversion H; subst. left; reflexivity.
+    - right. eapply IH; eauto.
+  Qed.
+
+  Lemma search_in : forall l run r g, search_totals l run r = Some g -> In g l.
+  Proof.
+    induction l as [|x l IH]; intros run r g H; [discriminate|].
+    cbn [search_totals] in H. destruct (r <=? run + weight x).
+    - inversion H; subst. left; reflexivity.
+    - right. eapply IH; eauto.
+  Qed.
+
+  Lemma search_found : forall l run r, run < r -> r <= run + wsum l -> search_totals l run r <> None.
+  Proof.
+    induction l as [|x l IH]; intros run r H1 H2.
+    - unfold wsum in H2. cbn [fold_left] in H2. lia.
+    - cbn [search_totals]. destruct (r <=? run + weight x) eqn:E; [discriminate|].
+      apply IH; [lia|]. rewrite wsum_cons in H2. lia.
+  Qed.
+
+  Lemma concat_parse_from : forall l t, concat_parse l = Ok t -> forall p, In p t -> from_cfg l p.
+  Proof.
+    induction l as [|g l IH]; intros t H p Hin.
+    - inversion H; subst. destruct Hin.
+    - cbn [concat_parse] in H. destruct (parse_subnets g) as [a| |] eqn:Ea; try discriminate.
+      destruct (concat_parse l) as [b| |] eqn:Eb; try discriminate.
+      inversion H; subst. apply in_app_or in Hin. destruct Hin as [Hin|Hin].
+      + destruct (parse_subnets_from _ _ Ea _ Hin). exists g. repeat split; auto. left; reflexivity.
+      + destruct (IH _ eq_refl _ Hin) as (g' & H1 & H2 & H3). exists g'. repeat split; auto. right; assumption.
+  Qed.
+
+  Lemma concat_parse_no_panic : forall l, concat_parse l <> Panic.
+  Proof.
+    induction l as [|g l IH]; cbn [concat_parse]; [discriminate|].
+    destruct (parse_subnets g) eqn:E; [|discriminate|exfalso; eapply parse_subnets_no_panic; eauto].
+    destruct (concat_parse l); [discriminate|discriminate|exfalso; apply IH; reflexivity].
+  Qed.
+
+  Lemma hk_rand_int_no_panic : forall seed info max, (0 < max)%Z -> hk_rand_int hm seed info max <> RPanic.
+  Proof. intros. unfold hk_rand_int. apply rand_int_no_panic. assumption. Qed.
+
+  (* getSubnetsHkdf *)
+  Lemma get_subnets_hkdf_from : forall cfg seed w t, get_subnets_hkdf hm sorter cfg seed w = Ok t ->
+    forall p, In p t -> from_cfg cfg p.
+  Proof.
+    intros cfg seed w t H p Hin. unfold get_subnets_hkdf in H. destruct w.
+    - match type of H with (if ?c then _ else _) = _ => destruct c end; [discriminate|].
+      destruct (hk_rand_int hm seed info_subnet _) as [| | |rnd s']; try discriminate.
+      destruct (walk_weights _ _) as [g|] eqn:Ew.
+      + apply walk_in, sorter_incl, filter_In in Ew. destruct Ew as [Hg _].
+        destruct (parse_subnets_from _ _ H _ Hin). exists g. repeat split; auto.
+      + eapply concat_parse_from; eauto.
+    - eapply concat_parse_from; eauto.
+  Qed.
+
+  Lemma get_subnets_hkdf_no_panic : forall cfg seed w, get_subnets_hkdf hm sorter cfg seed w <> Panic.
+  Proof.
+    intros. unfold get_subnets_hkdf. destruct w; [|apply concat_parse_no_panic].
+    match goal with |- (if ?c then _ else _) <> _ => destruct c eqn:E end; [discriminate|].
+    destruct (hk_rand_int hm seed info_subnet _) eqn:Er; try discriminate.
+    - exfalso. eapply hk_rand_int_no_panic; [|exact Er]. lia.
+    - destruct (walk_weights _ _); [apply parse_subnets_no_panic|apply concat_parse_no_panic].
+  Qed.
+
+  (* getSubnetsVarint *)
+  Lemma get_subnets_varint_from : forall cfg seed t, get_subnets_varint src src_seed src_int63 sorter cfg seed = Ok t ->
+    forall p, In p t -> from_cfg cfg p.
+  Proof.
+    intros cfg seed t H p Hin. unfold get_subnets_varint in H.
+    destruct (varint seed) as [sv n]. destruct (n =? 0)%Z; [discriminate|].
+    match type of H with (if ?c then _ else _) = _ => destruct c end; [discriminate|].
+    destruct (rnd_intn _ _ _ _) as [| |v r]; try discriminate.
+    destruct (search_totals _ _ _) as [g|] eqn:Es; [|discriminate].
+    apply search_in, sorter_incl in Es.
+    destruct (parse_subnets_from _ _ H _ Hin). exists g. repeat split; auto.
+  Qed.
+
+  (* ---------- math/rand: Intn stays below its bound ---------- *)
+  Lemma redraw_le : forall fuel draw max v r v' r', redraw src fuel draw max v r = Some (v', r') -> v' <= max.
+  Proof.
+    induction fuel as [|f IH]; intros draw max v r v' r' H; cbn [redraw] in H.
+    - destruct (v <=? max) eqn:E; [|discriminate]. inversion H; subst. lia.
+    - destruct (v <=? max) eqn:E; [inversion H; subst; lia|].
+      destruct (draw r) as [v1 r1]. eapply IH; eauto.
+  Qed.
+
+  Lemma rnd_intn_lt : forall fuel r n v r', rnd_intn src_int63 fuel r n = IntnOk v r' -> (Z.of_N v < n)%Z.
+  Proof.
+    intros fuel r n v r' H. unfold rnd_intn in H.
+    destruct (n <=? 0)%Z eqn:E0; [discriminate|].
+    assert (Hn : 0 < Z.to_N n) by lia.
+    assert (Hlt : forall x, x mod Z.to_N n < Z.to_N n) by (intros; apply N.mod_lt; lia).
+    assert (Hland : forall x, N.land x (Z.to_N n - 1) < Z.to_N n)
+      by (intros x; pose proof (land_le_r x (Z.to_N n - 1)); lia).
+    destruct (Z.to_N n <=? 2147483647).
+    - unfold rnd_int31n in H. destruct (is_pow2 (Z.to_N n)).
+      + destruct (rnd_int31 src src_int63 r) as [x r1]. inversion H; subst. specialize (Hland x). lia.
+      + destruct (rnd_int31 src src_int63 r) as [x r1].
+        destruct (redraw _ _ _ _ _ _) as [[y r2]|]; [|discriminate].
+        inversion H; subst. specialize (Hlt y). lia.
+    - unfold rnd_int63n in H. destruct (is_pow2 (Z.to_N n)).
+      + destruct (rnd_int63 src src_int63 r) as [x r1]. inversion H; subst. specialize (Hland x). lia.
+      + destruct (rnd_int63 src src_int63 r) as [x r1].
+        destruct (redraw _ _ _ _ _ _) as [[y r2]|]; [|discriminate].
+        inversion H; subst. specialize (Hlt y). lia.
+  Qed.
+
+  Lemma rnd_intn_no_panic : forall fuel r n, (0 < n)%Z -> rnd_intn src_int63 fuel r n <> IntnPanic.
+  Proof.
+    intros fuel r n H. unfold rnd_intn. destruct (n <=? 0)%Z eqn:E; [lia|].
+    match goal with |- match ?x with _ => _ end <> _ => destruct x as [[v r']|] end; discriminate.
+  Qed.
+
+  Lemma wsum_perm : forall l l', Permutation l l' -> wsum l = wsum l'.
+  Proof.
+    induction 1.
+    - reflexivity.
+    - rewrite !wsum_cons. lia.
+    - rewrite !wsum_cons. lia.
+    - lia.
+  Qed.
+
+  Lemma get_subnets_varint_no_panic : forall cfg seed, get_subnets_varint src src_seed src_int63 sorter cfg seed <> Panic.
+  Proof.
+    intros. unfold get_subnets_varint.
+    destruct (varint seed) as [sv n]. destruct (n =? 0)%Z; [discriminate|].
+    fold (wsum (sorter cfg)).
+    destruct (wsum (sorter cfg) <? 1) eqn:Et; [discriminate|].
+    destruct (rnd_intn _ _ _ _) as [| |v r] eqn:Ei; try discriminate.
+    - exfalso. eapply rnd_intn_no_panic; [|exact Ei]. lia.
+    - apply rnd_intn_lt in Ei.
+      destruct (search_totals _ _ _) as [g|] eqn:Es; [apply parse_subnets_no_panic|].
+      exfalso. eapply search_found; [| |exact Es]; lia.
+  Qed.
+
+  (* ---------- SelectAddrFromSubnet ---------- *)
+  Lemma select_addr_good : forall seed p ph, select_addr_from_subnet src src_seed src_int63 seed p = Ok ph -> good p ph.
+  Proof.
+    intros seed p ph H. unfold select_addr_from_subnet in H.
+    destruct (varint seed) as [sv n]. destruct (n =? 0)%Z; [discriminate|].
+    destruct (rnd_read _ _ _) as [rb r'].
+    destruct (addr_bytes _ _) as [b| |] eqn:Eb; try discriminate.
+    inversion H; subst. destruct (addr_bytes_ok _ _ _ Eb) as [H1 H2].
+    unfold good, contains. cbn [p_bytes p_rand_port]. rewrite H1.
+    pose proof (land_mask_lt (be_to_N rb) (bits (fam (fst p))) (ones (fst p))) as Hm.
+    unfold net_size, host_bits. repeat split; try assumption; lia.
+  Qed.
+
+  Lemma select_addr_no_panic : forall seed p, select_addr_from_subnet src src_seed src_int63 seed p <> Panic.
+  Proof.
+    intros. unfold select_addr_from_subnet.
+    destruct (varint seed) as [sv n]. destruct (n =? 0)%Z; [discriminate|].
+    destruct (rnd_read _ _ _) as [rb r'].
+    destruct (addr_bytes _ _) eqn:E; try discriminate. exfalso; eapply addr_bytes_no_panic; eauto.
+  Qed.
+
+  (* ---------- the three selectors ---------- *)
+  Lemma locate_hkdf_good : forall idn id ph, locate_hkdf idn id = Ok ph ->
+    exists mn mx p, In (mn, mx, p) idn /\ good p ph.
+  Proof.
+    intros idn id ph H. unfold locate_hkdf in H. apply finish_loop_ok, match_loop_inv in H.
+    destruct H as [H|(mn & mx & p & Hin & _ & Hp)]; [discriminate|].
+    exists mn, mx, p. split; [assumption|]. eapply addr_from_offset_good; eauto.
+  Qed.
+
+  Lemma select_impl_hkdf_good : forall seed subnets ph, select_impl_hkdf hm seed subnets = Ok ph ->
+    exists p, In p subnets /\ good p ph.
+  Proof.
+    intros seed subnets ph H. unfold select_impl_hkdf in H.
+    destruct (id_nets subnets 0) as [idn total] eqn:E.
+    destruct (total =? 0); [discriminate|].
+    destruct (hk_rand_int hm seed info_addr_id _) as [| | |id s']; try discriminate.
+    destruct (locate_hkdf_good _ _ _ H) as (mn & mx & p & Hin & Hg).
+    exists p. split; [|assumption]. eapply id_nets_in. rewrite E. exact Hin.
+  Qed.
+
+  Lemma select_impl_hkdf_no_panic : forall seed subnets, select_impl_hkdf hm seed subnets <> Panic.
+  Proof.
+    intros. unfold select_impl_hkdf. destruct (id_nets subnets 0) as [idn total].
+    destruct (total =? 0) eqn:Et; [discriminate|].
+    destruct (hk_rand_int hm seed info_addr_id _) eqn:Er; try discriminate.
+    - exfalso. eapply hk_rand_int_no_panic; [|exact Er]. lia.
+    - unfold locate_hkdf. apply finish_loop_no_panic, match_loop_no_panic.
+      intros. apply addr_from_offset_no_panic.
+  Qed.
+
+  Lemma select_impl_varint_good : forall seed subnets ph,
+    select_impl_varint src src_seed src_int63 seed subnets = Ok ph -> exists p, In p subnets /\ good p ph.
+  Proof.
+    intros seed subnets ph H. unfold select_impl_varint in H.
+    destruct (id_nets subnets 0) as [idn total] eqn:E.
+    destruct (total =? 0); [discriminate|].
+    apply finish_loop_ok, match_loop_inv in H.
+    destruct H as [H|(mn & mx & p & Hin & _ & Hp)]; [discriminate|].
+    exists p. split; [eapply id_nets_in; rewrite E; exact Hin|eapply select_addr_good; eauto].
+  Qed.
+
+  Lemma select_impl_v0_good : forall seed subnets ph,
+    select_impl_v0 src src_seed src_int63 seed subnets = Ok ph -> exists p, In p subnets /\ good p ph.
+  Proof.
+    intros seed subnets ph H. unfold select_impl_v0 in H.
+    destruct (id_nets_v0 subnets 0) as [idn total] eqn:E.
+    destruct (total =? 0); [discriminate|].
+    apply finish_loop_ok, match_loop_inv in H.
+    destruct H as [H|(mn & mx & p & Hin & _ & Hp)]; [discriminate|].
+    exists p. split; [eapply id_nets_v0_in; rewrite E; exact Hin|eapply select_addr_good; eauto].
+  Qed.
+
+  Lemma select_impl_varint_no_panic : forall seed subnets, select_impl_varint src src_seed src_int63 seed subnets <> Panic.
+  Proof.
+    intros. unfold select_impl_varint. destruct (id_nets subnets 0) as [idn total].
+    destruct (total =? 0); [discriminate|].
+    apply finish_loop_no_panic, match_loop_no_panic. intros. apply select_addr_no_panic.
+  Qed.
+
+  Lemma select_impl_v0_no_panic : forall seed subnets, select_impl_v0 src src_seed src_int63 seed subnets <> Panic.
+  Proof.
+    intros. unfold select_impl_v0. destruct (id_nets_v0 subnets 0) as [idn total].
+    destruct (total =? 0); [discriminate|].
+    apply finish_loop_no_panic, match_loop_no_panic. intros. apply select_addr_no_panic.
+  Qed.
+
+  (* ---------- PhantomIPSelector.Select ---------- *)
+  Lemma select_gen_good : forall seed cfg lv f ph, select_g seed (Some cfg) lv f = Ok ph ->
+    exists p, from_cfg cfg p /\ eff_fam (fst p) = f /\ good p ph.
+  Proof.
+    intros seed cfg lv f ph H. unfold select_gen in H.
+    match type of H with match ?x with _ => _ end = _ => destruct x as [subnets| |] eqn:Es end; try discriminate.
+    assert (Hfrom : forall p, In p subnets -> from_cfg cfg p).
+    { destruct (lv <? 2); [eapply get_subnets_varint_from|eapply get_subnets_hkdf_from]; eauto. }
+    assert (Hsel : exists p, In p (filter_family f subnets) /\ good p ph).
+    { destruct (lv <? 1); [eapply select_impl_v0_good; eauto|].
+      destruct (lv <? 2); [eapply select_impl_varint_good; eauto|eapply select_impl_hkdf_good; eauto]. }
+    destruct Hsel as (p & Hin & Hg). apply filter_family_in in Hin. destruct Hin as [Hin Hf].
+    exists p. split; [|split]; auto.
+  Qed.
+
+  Lemma select_gen_no_panic : forall seed cfg lv f, select_g seed cfg lv f <> Panic.
+  Proof.
+    intros seed [cfg|] lv f; [|discriminate]. unfold select_gen.
+    match goal with |- match ?x with _ => _ end <> _ => destruct x as [subnets| |] eqn:Es end.
+    - destruct (lv <? 1); [apply select_impl_v0_no_panic|].
+      destruct (lv <? 2); [apply select_impl_varint_no_panic|apply select_impl_hkdf_no_panic].
+    - discriminate.
+    - exfalso. destruct (lv <? 2);
+        [eapply get_subnets_varint_no_panic|eapply get_subnets_hkdf_no_panic]; eauto.
+  Qed.
+
+  Lemma select_gen_unknown_generation : forall seed lv f, select_g seed None lv f = Err EGeneration.
   Proof. reflexivity. Qed.
-End Gen.
 
-Lemma unknown_generation : forall seed lv f, exists e, select seed None lv f = Err e.
-Proof. intros. exists EGeneration. apply select_gen_unknown_generation. Qed.
+  (* ---------- phantoms.SelectPhantom ---------- *)
+  Lemma select_phantom_gen_good : forall seed cfg tr w ph, select_phantom_g seed cfg tr w = Ok ph ->
+    exists p, from_cfg cfg p /\ (forall f, tr = Some f -> eff_fam (fst p) = f) /\ good p ph.
+  Proof.
+    intros seed cfg tr w ph H. unfold select_phantom_gen in H.
+    destruct (get_subnets_hkdf hm sorter cfg seed w) as [subnets| |] eqn:Es; try discriminate.
+    apply select_impl_hkdf_good in H. destruct H as (p & Hin & Hg).
+    destruct tr as [f|].
+    - apply filter_family_in in Hin. destruct Hin as [Hin Hf]. exists p. split; [|split]; auto.
+      + eapply get_subnets_hkdf_from; eauto.
+      + intros f' Hf'. inversion Hf'; subst; reflexivity.
+    - exists p. split; [|split]; auto.
+      + eapply get_subnets_hkdf_from; eauto.
+      + intros f' Hf'. discriminate.
+  Qed.
+
+  Lemma select_phantom_gen_no_panic : forall seed cfg tr w, select_phantom_g seed cfg tr w <> Panic.
+  Proof.
+    intros. unfold select_phantom_gen.
+    destruct (get_subnets_hkdf hm sorter cfg seed w) eqn:Es.
+    - apply select_impl_hkdf_no_panic.
+    - discriminate.
+    - exfalso. eapply get_subnets_hkdf_no_panic; eauto.
+  Qed.
+End Gen.
